@@ -292,10 +292,7 @@ func readBatchFromIO(data io.ReadCloser, batches chan<- edge.BufferedBatchMessag
 		if err != nil {
 			return err
 		}
-		if len(b.Points()) == 0 {
-			// do nothing
-			continue
-		}
+		// Empty batches are part of the recording, replayBatchFromChan emits them.
 		batches <- b
 	}
 	return nil
